@@ -291,7 +291,12 @@ def run(tier, seed):
                 continue
             # depth 1 over every element; deeper over the mutation-suspect alphabet
             shards.append((v, c, 1, allt))
-            shards.append((v, c, 2 if quick else 3, sus if not quick else [t for t in sus if t[0].split("(")[0] in SUSPECTS[:16]][:36]))
+            core = [t for t in sus if t[0].split("(")[0] in SUSPECTS[:16]][:36]
+            if quick:
+                shards.append((v, c, 2, core))
+            else:
+                shards.append((v, c, 2, sus))     # every pair of mutation-suspect transitions
+                shards.append((v, c, 3, core[:24]))  # triples over the core
     explore.pmap(_bfs_shard, shards, rep, seed)
     explore.pmap(_hist_shard, hist_shards, rep, seed)
     b = rep.sections.get("bfs", {})
